@@ -222,11 +222,13 @@ ARGS = ((1, 7), {'b': 5})
 ''',
 }
 
-ALPHABET = ['R1', 'R2', 'B1', 'B2', 'C1', 'C2', 'X1', 'X2', 'RC', 'RS', 'N1', 'I1', 'D']
+ALPHABET = ['R1', 'R2', 'B1', 'B2', 'C1', 'C2', 'X1', 'X2', 'RC', 'RS', 'N1', 'I1', 'D', 'F1', 'F2']
 # R<i> retrieve on instance i    B<i> bind on instance i and keep the bound object
 # C<i> call through instance i   X<i> drop instance i (+ everything obtained from it) and gc.collect()
 # RC retrieve through the class  RS retrieve on an instance of the subclass
 # N<i> replace instance i by a fresh one   I1 inspect.signature on instance 1   D re-decorate (annotate)
+# F<i> a retrieval on instance i that FAILS: one of the calls it makes into code outside sigtools raises
+#      (failpoint injector of W-FAULT); the outcome is discarded -- what follows must be unaffected
 
 
 def render_sig(sig):
@@ -335,6 +337,27 @@ def run_history(ctx, kind, history):
                 i = int(op[1])
                 inst[i] = A()
                 held[i] = []
+            elif op[0] == 'F':
+                i = int(op[1])
+                if inst[i] is None:
+                    continue
+                from . import w_fault
+                INJ = w_fault.INJ
+                INJ.install()
+                retr = inspect.signature if (step_no + len(history)) % 2 else sigtools.signature
+                target_inst = inst[i]
+                opf = lambda: retr(target_inst.m)
+                out, sites = INJ.passive(opf)
+                if out[0] == 'ret':
+                    observe('instance-inspect' if retr is inspect.signature else 'instance', out[1])
+                if sites:
+                    k = 1 + (step_no * 7 + len(history) * 3 + len(kind)) % len(sites)
+                    exc = w_fault.EXC_CLASSES[(step_no + len(history)) % len(w_fault.EXC_CLASSES)]
+                    out, fired = INJ.inject(opf, k, exc)
+                    ctx.count('C18.faulted_retrievals')
+                    if out[0] == 'raise':
+                        ctx.count('C18.faulted_retrievals_raised')
+                out = opf = target_inst = None
             elif op == 'D':
                 from sigtools import modifiers
                 if kind.startswith('modifier') or kind.startswith('posoargs'):
@@ -364,7 +387,7 @@ def run_histories(ctx):
     rnd = ctx.rng('histories')
     kinds = sorted(KINDS)
     if ctx.tier == 'thorough':
-        letters = ['R1', 'B1', 'C1', 'X1', 'R2']
+        letters = ['R1', 'B1', 'C1', 'X1', 'R2', 'F1']
         idx = 0
         done = True
         for L in range(1, 6):
@@ -377,9 +400,9 @@ def run_histories(ctx):
                     break
                 for kind in kinds:
                     run_history(ctx, kind, h)
-        ctx.exhaustive['histories of length <= 5 over {R1,B1,C1,X1,R2} x %d object kinds' % len(kinds)] = done
+        ctx.exhaustive['histories of length <= 5 over {R1,B1,C1,X1,R2,F1} x %d object kinds' % len(kinds)] = done
     else:
-        letters = ['R1', 'B1', 'C1', 'X1']
+        letters = ['R1', 'B1', 'C1', 'X1', 'F1']
         idx = 0
         for L in range(1, 4):
             for h in itertools.product(letters, repeat=L):
@@ -387,7 +410,7 @@ def run_histories(ctx):
                 if ctx.mine(idx):
                     for kind in kinds:
                         run_history(ctx, kind, h)
-        ctx.exhaustive['histories of length <= 3 over {R1,B1,C1,X1} x %d object kinds' % len(kinds)] = True
+        ctx.exhaustive['histories of length <= 3 over {R1,B1,C1,X1,F1} x %d object kinds' % len(kinds)] = True
     n = {'quick': 500, 'thorough': 20000}[ctx.tier] // ctx.nshards
     for _ in range(n):
         if ctx.out_of_time('random histories'):
